@@ -1,4 +1,3 @@
-from ..scanner_utils import is_space
 
 
 class SelectItemModel:
@@ -23,6 +22,15 @@ def push_range(ranges: list, rng: list):
         ranges.append(rng)
 
 
+def is_token_separator(ch: str):
+    """
+    Check if given character separates tokens of space-separated list like `class`
+    attribute: tab, line feed, form feed, carriage return or space (a no-break space
+    is not a separator)
+    """
+    return ch in ' \t\n\f\r'
+
+
 def token_list(value: str, offset=0):
     "Returns ranges of tokens in given value. Tokens are space-separated words."
     ranges = []
@@ -35,11 +43,11 @@ def token_list(value: str, offset=0):
         end = pos
         ch = value[pos]
         pos += 1
-        if is_space(ch):
+        if is_token_separator(ch):
             if start != end:
                 ranges.append((offset + start, offset + end))
 
-            while pos < l and is_space(value[pos]):
+            while pos < l and is_token_separator(value[pos]):
                 pos += 1
 
             start = pos
